@@ -91,15 +91,39 @@ class C18(Check):
             path = geom.RefPath(collar, read_back)
             tclass = self._table_class(path)
             queries = geom.standard_queries(path, program.get("queries", ()))
-            self._check_queries(hole, path, queries, tclass, "create", res)
+            self._check_queries(hole, path, queries, tclass, "query", res)
+            path_ok = not res.fails  # later re-queries only tell something new if the path was right at first
 
             added = []  # successful additions: dicts(name, op, kind, tol, items)
             stats = {"adds": 0, "overlap": False, "deepest": None, "reopens": 0}
             last = "create"
             for op in program["ops"]:
                 kind = op["op"]
-                if kind == "query":
-                    self._check_queries(hole, path, queries, tclass, last, res)
+                if kind in ("set_collar", "set_surveys"):
+                    try:
+                        if kind == "set_collar":
+                            collar = [float(v) for v in op["value"]]
+                            hole.collar = collar
+                        else:
+                            table = [[float(v) for v in row] for row in op["table"]]
+                            hole.surveys = np.asarray(table, dtype=float)
+                            self._table_labels(table, res)
+                        read_back = [[float(v) for v in row] for row in np.asarray(hole.surveys).reshape((-1, 3))]
+                    except Exception as exc:
+                        res.count("op_error")
+                        res.label(f"op_error:{kind}:{type(exc).__name__}")
+                        break
+                    res.label(f"op:{kind}")
+                    path = geom.RefPath(collar, read_back)
+                    tclass = self._table_class(path)
+                    queries = geom.standard_queries(path, program.get("queries", ()))
+                    last = kind
+                    if added:  # generated programs move the hole only before data exist
+                        res.label("moved-after-additions")
+                        break
+                elif kind == "query":
+                    if path_ok:
+                        self._check_queries(hole, path, queries, tclass, f"requery-after-{last}", res)
                     res.count("query_ops")
                 elif kind == "reopen":
                     try:
@@ -117,7 +141,8 @@ class C18(Check):
                     res.label("reopen")
                     last = "reopen"
                     self._check_state(hole, path, added, last, res)
-                    self._check_queries(hole, path, queries[: 12], tclass, last, res)
+                    if path_ok:
+                        self._check_queries(hole, path, queries[: 12], tclass, "requery-after-reopen", res)
                 else:
                     done = self._add(hole, op, added, stats, allow, res)
                     if done:
@@ -182,31 +207,31 @@ class C18(Check):
             first = np.array(hole.desurvey(depths.copy()), dtype=float)
             second = np.array(hole.desurvey([float(v) for v in queries]), dtype=float)
         except Exception as exc:
-            res.fail(f"C18/desurvey-raises/query-after-{after}/{tclass}/{type(exc).__name__}",
+            res.fail(f"C18/desurvey-raises/{after}/{tclass}/{type(exc).__name__}",
                      f"desurvey raised {exc!r} for table {list(zip(path.depth, path.dirs))[:3]}...")
             return
         res.count("positions_checked", len(queries))
         if first.shape != (len(queries), 3):
-            res.fail(f"C18/desurvey-shape/query-after-{after}/{tclass}/shape",
+            res.fail(f"C18/desurvey-shape/{after}/{tclass}/shape",
                      f"{first.shape} for {len(queries)} depths")
             return
         if not np.all(np.isfinite(first)):
             bad = [queries[i] for i in np.where(~np.isfinite(first).all(axis=1))[0][:5]]
-            res.fail(f"C18/non-finite/query-after-{after}/{tclass}/nan-or-inf", f"non-finite positions at depths {bad}")
+            res.fail(f"C18/non-finite/{after}/{tclass}/nan-or-inf", f"non-finite positions at depths {bad}")
             return
         if first.tobytes() != second.tobytes():
-            res.fail(f"C18/not-repeatable/query-after-{after}/{tclass}/two-calls-differ",
+            res.fail(f"C18/not-repeatable/{after}/{tclass}/two-calls-differ",
                      f"max difference {float(np.nanmax(np.abs(first - second)))}")
         # (1) collar at depth 0
         if queries[0] == 0.0 and float(np.max(np.abs(first[0] - path.collar))) > _pos_tol(0):
-            res.fail(f"C18/collar/query-after-{after}/{tclass}/depth-zero-is-not-the-collar",
+            res.fail(f"C18/collar/{after}/{tclass}/depth-zero-is-not-the-collar",
                      f"desurvey(0)={first[0].tolist()} collar={path.collar.tolist()}")
         # (2) 1-Lipschitz between consecutive depths (independent of the reference path)
         for n in range(len(queries) - 1):
             gap = queries[n + 1] - queries[n]
             moved = float(np.linalg.norm(first[n + 1] - first[n]))
             if moved > gap * (1 + 1e-9) + 1e-9 * (1 + queries[n + 1]):
-                res.fail(f"C18/lipschitz/query-after-{after}/{tclass}/{path.region(queries[n + 1])}",
+                res.fail(f"C18/lipschitz/{after}/{tclass}/{path.region(queries[n + 1])}",
                          f"|p({queries[n + 1]})-p({queries[n]})|={moved} > depth difference {gap}")
                 break
         # (3,4) position on the surveyed path
@@ -219,13 +244,13 @@ class C18(Check):
             if region == "beyond" and ok:
                 usable = ok if chosen is None else [i for i in ok if i in chosen]
                 if not usable:
-                    res.fail(f"C18/path-position/query-after-{after}/{tclass}/beyond:direction-changes",
+                    res.fail(f"C18/path-position/{after}/{tclass}/beyond:direction-changes",
                              f"depth {d}: matches candidate(s) {ok} but earlier depths matched {chosen}")
                     break
                 chosen = usable
                 continue
             if not ok:
-                res.fail(f"C18/path-position/query-after-{after}/{tclass}/{region}",
+                res.fail(f"C18/path-position/{after}/{tclass}/{region}",
                          f"depth {d}: library {first[n].tolist()} reference {cands[0].tolist()} "
                          f"(error {min(errs):.3g} > {_pos_tol(d):.3g}); stations {path.depth}")
                 break
